@@ -736,7 +736,18 @@ func (d *jsonDec) dec(slot *value, t types.Type) {
 	}
 	c, ok := d.peek()
 	if !ok {
-		m.unsupported("json: symbolic byte at value start")
+		// a symbolic byte can only start a number (digits of a symbolic integer)
+		numeric := isBigInt(t)
+		if pt, isP := t.Underlying().(*types.Pointer); isP && isBigInt(pt.Elem()) {
+			numeric = true
+		}
+		if b, isB := t.Underlying().(*types.Basic); isB && b.Info()&types.IsInteger != 0 {
+			numeric = true
+		}
+		if !numeric {
+			m.unsupported("json: symbolic byte at value start")
+		}
+		c = '0'
 	}
 	if d.pos >= len(d.b) {
 		d.fail("unexpected end of JSON input")
@@ -1027,7 +1038,10 @@ func (d *jsonDec) dec(slot *value, t types.Type) {
 
 func (d *jsonDec) decBig(p *value) {
 	m := d.m
-	c, _ := d.peek()
+	c, ok := d.peek()
+	if !ok {
+		c = '0'
+	}
 	var nb []value
 	if c == '"' {
 		// big.Int.UnmarshalJSON accepts only numbers; quoted text is an error
